@@ -447,6 +447,13 @@ def check_mirror(case, rec):
         return
     if any(b.order == 8 for *_, b in m.bonds()) or (which[1] == 'c' and len(which[0]) > 2):
         return  # RDKit has neither coordinate bonds in SMILES nor cumulene stereo
+    if which[1] == 't' and any(orb[n] == orb[which[0]] for n in m.stereogenic_tetrahedrons if n != which[0]) or \
+            which[1] == 'c' and any(frozenset((orb[p[0]], orb[p[-1]])) == frozenset((orb[which[0][0]], orb[which[0][-1]]))
+                                    for p in m.stereogenic_cumulenes if tuple(p) != tuple(which[0])):
+        # the inverted element has constitutionally equivalent partners without label: a partially specified symmetric molecule,
+        # where RDKit's canonical form of the two partial descriptions can coincide (not a statement about the library)
+        rec.count('rdkit-not-comparable (equivalent unlabelled centres)')
+        return
     from .c03 import rdkit_same
     same = rdkit_same(str(m), str(inv))
     if same is None:
